@@ -87,7 +87,7 @@ func (h *heldMetricsStore[T]) Delete(labels []string, deleter metricDeleter) boo
 	}
 
 	deleter.DeleteLabelValues(labels...)
-	*hMetrics[i] = heldMetric[T]{}
+	// the held metric is not zeroed here: a goroutine that looked it up just before the deletion may still use it
 	hMetrics = append(hMetrics[:i], hMetrics[i+1:]...)
 
 	if len(hMetrics) == 0 {
